@@ -2,10 +2,12 @@ package props
 
 import (
 	"fmt"
+	"os"
 	"strings"
 
 	"github.com/go-kid/ioc/app"
 	cd "github.com/go-kid/ioc/component_definition"
+	"github.com/go-kid/ioc/configure"
 	"github.com/go-kid/ioc/configure/binder"
 	"github.com/go-kid/ioc/container/processors"
 
@@ -34,6 +36,39 @@ type c16Case struct {
 	B    any    `json:"b"`
 	K    string `json:"k"`
 	Kind string `json:"kind"` // custom value wire
+	// MapBinder: the configuration is served by a user-supplied binder (a plain nested map)
+	// instead of the built-in viper binder
+	MapBinder bool `json:"user_binder,omitempty"`
+}
+
+// c16MapBinder is a user-supplied configure.Binder over a nested map: it hands values out as
+// they are (an empty map is an empty map).
+type c16MapBinder struct {
+	m         map[string]any
+	n, budget int
+}
+
+func (b *c16MapBinder) SetConfig(c []byte) error { return nil }
+func (b *c16MapBinder) Set(path string, val any) { b.m[path] = val }
+func (b *c16MapBinder) Get(path string) any {
+	b.n++
+	if b.n > b.budget {
+		panic(scen.BudgetExceeded{Msg: fmt.Sprintf("more than %d Configure.Get calls in one start (placeholder resolution does not terminate)", b.budget)})
+	}
+	if path == "" {
+		return b.m
+	}
+	var cur any = b.m
+	for _, k := range strings.Split(path, ".") {
+		m, ok := cur.(map[string]any)
+		if !ok {
+			return nil
+		}
+		if cur, ok = m[k]; !ok {
+			return nil
+		}
+	}
+	return cur
 }
 
 type c16Holder struct {
@@ -188,7 +223,12 @@ func c16Gen(c *core.Ctx) func(yield func(c16Case) bool) {
 							if !c.Thorough() && kind != "custom" && len(tagSegs[tag]) > 2 {
 								continue
 							}
-							if !yield(c16Case{tag, av, bv, kv, kind}) {
+							if !yield(c16Case{Tag: tag, A: av, B: bv, K: kv, Kind: kind}) {
+								return
+							}
+							// the forms that touch an empty map / list also through a user-supplied binder
+							if (strings.Contains(tag, "${m") || strings.Contains(tag, "${l")) && len(tagSegs[tag]) <= 2 &&
+								!yield(c16Case{Tag: tag, A: av, B: bv, K: kv, Kind: kind, MapBinder: true}) {
 								return
 							}
 						}
@@ -245,6 +285,11 @@ func c16Run(c *core.Ctx) {
 			vb.Set(k, v)
 		}
 		cb := &c16Binder{ViperBinder: vb, budget: 5000}
+		mb := &c16MapBinder{m: cfg, budget: 5000}
+		var theBinder configure.Binder = cb
+		if cs.MapBinder {
+			theBinder = mb
+		}
 		comps := []any{h, sc, rec}
 		// by-name targets for the wire kind: components named after the possible results
 		targets := map[string]*scen.N{}
@@ -256,7 +301,8 @@ func c16Run(c *core.Ctx) {
 				comps = append(comps, n)
 			}
 		}
-		o := scen.Start(scen.StartSpec{Ch: envx.Fixed("", nil), Comps: comps, Opts: []app.SettingOption{app.SetConfigBinder(cb), app.SetConfigLoader()}})
+		o := scen.Start(scen.StartSpec{Ch: envx.Fixed("", nil), Comps: comps, Opts: []app.SettingOption{app.SetConfigBinder(theBinder), app.SetConfigLoader()}})
+		cb.n += mb.n
 		c.S.Evaluations++
 		c.S.Programs++
 		c.S.States++
@@ -267,6 +313,9 @@ func c16Run(c *core.Ctx) {
 		c.S.Extra["max_get_calls_terminating"] = max64(c.S.Extra["max_get_calls_terminating"], int64(cb.n))
 		key := "C16/" + cs.Kind + "/" + core.Hash(cs)
 		desc := fmt.Sprintf("%s tag %q with a=%v b=%v k=%v", cs.Kind, cs.Tag, cs.A, cs.B, cs.K)
+		if cs.MapBinder {
+			desc += " (user-supplied binder)"
+		}
 		if o.Abort != "" {
 			c.S.Extra["max_get_calls_terminating"] = 0
 			c.Outcome(cs.Kind + "/hang")
